@@ -256,11 +256,11 @@ func NewHDRHistogramPlotReporter(m *Metrics) Reporter {
 
 		total := float64(m.Requests)
 		var prev time.Duration
-		for _, q := range logarithmic {
+		for i, q := range logarithmic {
 			// Quantile estimates are only monotonic up to rounding
 			// errors: never let a row fall below the previous one.
 			d := m.Latencies.Quantile(q)
-			if d < prev {
+			if i > 0 && d < prev {
 				d = prev
 			}
 			prev = d
